@@ -353,6 +353,13 @@ func UpdateCheckpoint(outCli client.Redis, localCheckpoint string, ids []string)
 	return nil
 }
 
+// KEYS[1] the checkpoint hash ; ARGV[1] the offset field, ARGV[2] the offset the collector saw,
+// ARGV[3..5] the other fields of the record
+const delCheckpointIfUnchanged = `if redis.call('hget', KEYS[1], ARGV[1]) == ARGV[2] then
+	return redis.call('hdel', KEYS[1], ARGV[1], ARGV[3], ARGV[4], ARGV[5])
+end
+return 0`
+
 func DelStaleCheckpoint(cli client.Redis, checkpointName string, runId string, beforeNow time.Duration, exceptNewest bool) (int, int, error) {
 	mp, err := getDbMap(cli)
 	if err != nil {
@@ -392,9 +399,11 @@ func DelStaleCheckpoint(cli client.Redis, checkpointName string, runId string, b
 			return len(dbs), deleted, fmt.Errorf("select db error : err(%w), db(%d)", err, db)
 		}
 
-		if _, err := cli.Do("hdel", checkpointName, cpi.RunIdKey(), cpi.OffsetKey(), cpi.VersionKey(), cpi.MTimeKey()); err != nil {
+		// the replay of this process stores its position concurrently : the record is removed only
+		// while it still holds the offset the scan saw
+		if n, err := common.Int64(cli.Do("eval", delCheckpointIfUnchanged, "1", checkpointName, cpi.OffsetKey(), strconv.FormatInt(cpi.Offset, 10), cpi.RunIdKey(), cpi.VersionKey(), cpi.MTimeKey())); err != nil {
 			return len(dbs), deleted, err
-		} else {
+		} else if n > 0 {
 			deleted++
 			log.Infof("del lagacy checkpoint : db(%d), checkpoint(%+v)", db, cpi)
 		}
